@@ -1578,5 +1578,45 @@ def remove_relink(ctx):
     return res
 
 
-RULES = [remove_relink, geometry_attr, append_default, insertion, derived_sync_rule, arg_wiring_rule, init_stores, scalar_conv, placement, thickness_edit, media_chain, one_stop,
+def flat_conic(ctx):
+    """'radii, conic constants ... are exactly those given' for any curvature
+    including zero: the factory turns an infinite radius into a Plane, which
+    has no conic parameter; the conic given must be kept on it (the attribute
+    Optic.set_conic / set_radius use), else a later set_radius makes a sphere
+    of the prescribed conic."""
+    P = ctx.P
+    res = Result('FLAT-CONIC', 'a conic constant given together with an '
+                 'infinite radius is kept on the flat surface')
+    f = P.func('SurfaceFactory._configure_standard_geometry')
+    res.saw(f)
+    arm = None
+    for n in ast.walk(f.node):
+        if isinstance(n, ast.If) and 'isinf' in unparse(n.test) and \
+                'radius' in unparse(n.test):
+            arm = n.body
+    if arm is None:
+        raise AnalysisError('_configure_standard_geometry: infinite-radius '
+                            'arm not found')
+    keeps = any(isinstance(st, ast.Assign) and
+                unparse(st.targets[0]).endswith('.k') and
+                unparse(st.value) == 'conic'
+                for st in ast.walk(ast.Module(body=arm, type_ignores=[])))
+    sr = P.func('Optic.set_radius')
+    reads = "geometry.k" in unparse(sr.node, 100000) or \
+        "'k'" in unparse(sr.node, 100000)
+    if keeps and reads:
+        res.ok('Plane built for radius = inf keeps the conic; set_radius '
+               'reads it back')
+    else:
+        res.fail(ctx.finding(
+            'FLAT-CONIC', f, f.node,
+            'add_surface(radius=inf, conic=k) builds Plane(cs) and drops k: '
+            'the conic reads 0, and after set_radius(-200) the surface is a '
+            'sphere instead of the prescribed paraboloid (sag off by 2.5 um '
+            'at r = 20; imported STANDARD surface with CURV 0 and CONI -1)',
+            construct='conic dropped for a flat surface'))
+    return res
+
+
+RULES = [flat_conic, remove_relink, geometry_attr, append_default, insertion, derived_sync_rule, arg_wiring_rule, init_stores, scalar_conv, placement, thickness_edit, media_chain, one_stop,
          setter_writes, pickup, solve]
